@@ -751,7 +751,11 @@ funcexpr(struct func *f, struct expr *e)
 		lval = funclval(f, e->base);
 		l = funcload(f, e->base->type, lval);
 		t = e->type;
-		if (t->kind == TYPEPOINTER) {
+		if (t->kind == TYPEPOINTER && t->base->kind == TYPEARRAY && !t->base->size && t->base->prop & PROPVM) {
+			/* step over a variable-length array */
+			calcvla(f, t->base);
+			r = t->base->u.array.size;
+		} else if (t->kind == TYPEPOINTER) {
 			r = mkintconst(t->base->size);
 		} else if (t->prop & PROPINT) {
 			r = mkintconst(1);
